@@ -1,0 +1,19 @@
+//go:build verif
+
+// Contracts for the tvc verifier (/verif). Comment-only: with the `verif` tag off this file does not exist,
+// with it on it adds no code. Syntax: /verif/DESIGN.md appendix A.
+
+package node
+
+//@ for C19
+
+//@ # The capability block published in the Node CR is the limit vector of the instance type recorded next to it.
+//@ pure func capMatches(n *networkv1beta1.Node) bool = n.Spec.NodeCap.Adapters == limitOfType(n.Spec.NodeMetadata.InstanceType).Adapters && n.Spec.NodeCap.TotalAdapters == limitOfType(n.Spec.NodeMetadata.InstanceType).TotalAdapters && n.Spec.NodeCap.IPv4PerAdapter == limitOfType(n.Spec.NodeMetadata.InstanceType).IPv4PerAdapter && n.Spec.NodeCap.IPv6PerAdapter == limitOfType(n.Spec.NodeMetadata.InstanceType).IPv6PerAdapter && n.Spec.NodeCap.MemberAdapterLimit == limitOfType(n.Spec.NodeMetadata.InstanceType).MemberAdapterLimit && n.Spec.NodeCap.MaxMemberAdapterLimit == limitOfType(n.Spec.NodeMetadata.InstanceType).MaxMemberAdapterLimit && n.Spec.NodeCap.EriQuantity == erdmaRes(limitOfType(n.Spec.NodeMetadata.InstanceType))
+
+//@ func ReconcileNode.createOrUpdate
+//@   requires r != nil && k8sNode != nil && node != nil
+//@   # record invariant: a stored capability block belongs to the stored instance type
+//@   requires capMatches(node)
+//@   # after a successful pass the record names the node's current instance type and its limits
+//@   ensures result == nil ==> node.Spec.NodeMetadata.InstanceType == old(k8sNode.Labels["node.kubernetes.io/instance-type"])
+//@   ensures result == nil ==> capMatches(node)
